@@ -1,29 +1,111 @@
 """C03 Key equality, ordering and hashing agree and ignore how a key was built."""
+import z3
 from common import *
-import kani
+import kani, _kprop, _e3
+from mirsmt import sym, conc, models
+from mirsmt.sym import Ptr, bv
 
-FUNCS = ["metrics::key::<Key as PartialEq>::eq", "metrics::key::<Key as Ord>::cmp", "metrics::key::key_hasher_impl",
-         "metrics::key::Key::get_hash", "metrics::label::Label (derived Eq/Ord/Hash)", "metrics::cow::Cow<str> eq/cmp/hash"]
-
+FUNCS = ["metrics::key::<Key as PartialEq>::eq", "metrics::key::<Key as Ord>::cmp", "metrics::key::key_hasher_impl", "metrics::key::generate_key_hash",
+         "metrics::key::Key::{from_parts,from_static_parts,from_static_labels,from_name,with_extra_labels,clone,get_hash}",
+         "metrics::label::Label (derived Eq/Ord/Hash)", "metrics::cow::Cow<str>/<[Label]> eq/cmp/hash/clone"]
+S1 = "label names/values and key names are one-byte strings with symbolic content in {a,b} (fresh buffers)"
+ST = {"functions": FUNCS}
 HARNESSES = [
-    kani.H("c03_pair_0", "pair of keys, 0 labels: eq<=>cmp==Equal, symmetry, antisymmetry", "names in {'',a,b}", 120, functions=FUNCS),
-    kani.H("c03_pair_1", "pair of keys, 1 label each", "names/label parts in {'',a,b}", 120, functions=FUNCS),
-    kani.H("c03_pair_2", "pair of keys, 2 labels each (incl. repeated label names)", "names/label parts in {'',a,b}", 240, functions=FUNCS),
-    kani.H("c03_pair_3", "pair of keys, 3 labels each (n<8 sort arm)", "names/label parts in {'',a,b}", 400, functions=FUNCS),
+    kani.H("c03_pair_0", "pair of keys, 0 labels: eq<=>cmp==Equal, symmetry, antisymmetry, partial_cmp", S1, 200, **ST),
+    kani.H("c03_pair_1", "pair of keys, 1 label each", S1, 200, **ST),
+    kani.H("c03_pair_2", "pair of keys, 2 labels each (repeated names, repeated labels)", S1, 400, **ST),
+    kani.H("c03_pair_mixed", "pairs with different label counts 0..2, reflexivity", S1, 1800, tier="thorough", **ST),
+    kani.H("c03_alias_0", "names that are prefixes of one static buffer (same address, lengths 0..2)", "strings '', 'a', 'ab' aliasing", 200, **ST),
+    kani.H("c03_alias_1", "1 label, names/values aliasing prefixes of one buffer; == is content equality", "strings '', 'a', 'ab' aliasing", 300, **ST),
+    kani.H("c03_triple_1", "triples, 1 label: Eq transitive, cmp transitive (strict and non-strict)", S1, 400, **ST),
+    kani.H("c03_hash_1", "a==b => identical std-Hash byte stream and get_hash(); get_hash stable, survives clone", S1 + "; KeyHasher stubbed by a rotate/xor fold", 400, **ST),
+    kani.H("c03_hash_2", "same, 2 labels", S1, 900, tier="thorough", **ST),
+    kani.H("c03_hash_3", "same, 3 labels (sort arm)", S1, 1800, tier="thorough", **ST),
+    kani.H("c03_pair_3", "pair of keys, 3 labels (n<8 sort arm)", S1, 900, tier="thorough", **ST),
+    kani.H("c03_pair_4", "pair of keys, 4 labels", S1, 2400, tier="thorough", **ST),
+    kani.H("c03_triple_2", "triples, 2 labels", S1, 1800, tier="thorough", **ST),
+    kani.H("c03_triple_3", "triples, 3 labels", S1, 2400, tier="thorough", **ST),
+    kani.H("c03_paths_1", "8 construction paths (static/owned/Arc/tuple/with_extra_labels/clone) give equal keys, equal hashes, same content", S1 + "; 1 label", 600, tier="thorough", **ST),
+    kani.H("c03_paths_2", "same, 2 labels", S1, 1800, tier="thorough", **ST),
+    kani.H("c03_perm_2", "pairwise distinct label names: supplied order irrelevant for eq/cmp/hash/get_hash", "2 labels", 600, tier="thorough", **ST),
+    kani.H("c03_perm_3", "same, 3 labels", "3 labels, two symbolic swaps", 1800, tier="thorough", **ST),
+    kani.H("c03_big8", "n>=8 arm: 8 labels, reversed order, one symbolic value change on each side", "8 labels of which 2 values symbolic", 2400, tier="thorough", **ST),
 ]
+ASSUME = ["strings are 1-byte with symbolic content in {a,b} (comparison is memcmp: content-agnostic beyond order and length), plus an aliasing harness with lengths 0..2; longer and non-ASCII strings are outside the bound",
+          "metrics::KeyHasher (ahash) is replaced by a recording / folding hasher under Kani: equal byte streams are what is checked, not the quality of ahash",
+          "E3 get_hash race: generate_key_hash is an uninterpreted constant of the key; sequential consistency plus release/acquire race relation",
+          ">= 9 labels, strings > 2 bytes outside the claim"]
 
-ASSUME = ["strings range over a 3-element table {'', 'a', 'b'}: comparison is memcmp and content-agnostic beyond equal/less/greater and length",
-          "Kani 0.68 / CBMC 6.11 model of the compiled crate (dev profile semantics, overflow checks on)"]
+FUNCS_E3 = ["metrics::key::Key::get_hash", "metrics::key::<impl Clone for Key>::clone"]
+
+
+def gethash_scenario(e3, shape, name):
+    P = _e3.program(["metrics"])
+    H = z3.BitVec("key_hash", 64)
+    m = dict(models.BASE)
+    m[r"generate_key_hash$"] = lambda eng, ctx, f, path, args, dty: H     # a deterministic function of the key's content
+    eng = sym.Engine(P, models=m, opaque=[r"KeyName as Clone>::clone$", r"Cow as Clone>::clone$"])
+    get_b = P.find("Key", "get_hash")
+    clone_b = P.find("Key", "clone", trait="Clone")
+    c0 = sym.Ctx(eng, 0)
+    eng.thread_names[0] = "setup"
+    key = c0.alloc("Key", {(2,): ("bool", z3.BoolVal(False)), (3,): (64, bv(0))})
+    eng.leaves[0] = [sym.Leaf(c0, "done")]
+    kp = Ptr(("obj", key))
+    tids = []
+    for i, kind in enumerate(shape, start=1):
+        def script(kind=kind):
+            if kind == "get":
+                r = yield ("call", get_b, [kp])
+                return [r]
+            if kind == "get_get":
+                r1 = yield ("call", get_b, [kp])
+                r2 = yield ("call", get_b, [kp])
+                return [r1, r2]
+            c = yield ("call", clone_b, [kp])
+            oid = yield ("alloc", "Key", {(2,): ("bool", eng.as_bool(c.f[2])), (3,): (64, c.f[3])})
+            r = yield ("call", get_b, [Ptr(("obj", oid))])
+            r0 = yield ("call", get_b, [kp])
+            return [r, r0]
+        eng.run_script(i, f"t{i}:{kind}", script)
+        tids.append(i)
+    sc = conc.Scenario(eng, name)
+    for t in tids:
+        sc.thread_order(0, t)
+    sc.build()
+    wrong = []
+    for t in tids:
+        n = max(len(l.ret) for l in eng.leaves[t] if l.status == "done")
+        for k in range(n):
+            wrong.append(sc.leaf_ite(t, lambda l, k=k: l.ret[k] != H, z3.BoolVal(False)))
+    race, extra = sc.race_condition()
+    props = [("get_hash_is_the_key_hash_on_every_thread", "some get_hash() call (also on a clone taken meanwhile) returns something else than the hash of the key", z3.Or(*wrong), None),
+             ("no_data_race", "conflicting accesses unordered by happens-before", race, extra)]
+    roles = {t: shape[t - 1] for t in tids}
+    e3.standard(sc, eng, name, f"threads {shape} on one lazily hashed key, every interleaving; {sc.stats}", props,
+                replayer=_e3.native_replayer("C03", "c03", roles, {"key_hash": H}))
 
 
 def run(tier, seed, t0):
-    obs = kani.run_group("core", HARNESSES, tier)
-    finish("C03", tier, seed, obs, t0, ASSUME, FUNCS, explanation="Kani harnesses over symbolic keys")
+    e3 = _e3.E3("C03")
+    scen = [(["get", "get"], "c03_race_get_get"), (["get", "clone_get"], "c03_race_get_clone"), (["get", "get_get"], "c03_race_get_getget")]
+    if tier == "thorough":
+        scen += [(["get", "get", "get"], "c03_race_3get"), (["get", "get", "clone_get"], "c03_race_get_get_clone")]
+    for shape, nm in scen:
+        try:
+            gethash_scenario(e3, shape, nm)
+        except sym.Unsupported as ex:
+            e3.error(nm, "MIR->SMT encoding of Key::get_hash / Key::clone", ex)
+    obs = list(e3.res.obligations)
+    obs += kani.run_group("core", HARNESSES, tier, hooks=True, stubbing=True)
+    finish("C03", tier, seed, obs, t0, ASSUME + ["E3 callee models: " + ", ".join(sorted(e3.models))], FUNCS + sorted(e3.functions),
+           explanation="Kani harnesses over symbolic keys (Eq/Ord/Hash coherence) + MIR->SMT partial-order encoding of the get_hash publication race")
 
 
 def replay(path):
-    import re
-    m = re.search(r"harness=(\S+) group=(\S+)", open(path).read())
-    rr = kani.run_replay_file(m.group(2), m.group(1), path, False)
-    print(rr)
-    return 1 if any(v.startswith("reproduced") for v in rr.values()) else 0
+    if path.endswith(".vals"):
+        return _kprop.replay(path)
+    import replay_e3
+    status, out = replay_e3.run("c03", path)
+    print(status, out)
+    return 1 if status == "reproduced" else 0
